@@ -80,6 +80,10 @@ def run_shard(shard, ctx):
         four = [list(p_) for p_ in _it.permutations([0, 1, 2, 3])]          # incl. [0, 2, 1, 3]: first and last class in place, the middle swapped
         for cl in (_lists(UT, 3 if tier == 'quick' else 4, 2) + _lists([0, 1, 2], 3, 2) + four)[shard['part']::shard['parts']]:
             _tplmatch_list(col, ctx, np, {'kind': 'tplmatch', 'classes': cl})
+            if len(cl) >= 3:
+                # one declared class receives no building trace at all (its template stays empty): the other classes keep their own rows and scores, whatever the order of the declaration
+                for ub in cl:
+                    _tplmatch_list(col, ctx, np, {'kind': 'tplmatch', 'classes': cl, 'unbuilt': ub})
     else:
         fams = ('anova', 'nicv', 'snr', 'mia', 'tplbuild', 'tplattack')
         k = 0
@@ -207,6 +211,8 @@ def _tplmatch_list(col, ctx, np, case):
     vb = np.repeat(np.array(uni), 3)
     Xb = (rng.randint(0, 10, (len(vb), 2)) + 3 * np.array([uni.index(v) for v in vb])[:, None]).astype('float64')
     perm = rng.permutation(len(vb)); vb = vb[perm]; Xb = Xb[perm]
+    if case.get('unbuilt') is not None:
+        keep = vb != case['unbuilt']; vb = vb[keep]; Xb = Xb[keep]
     Xm = rng.randint(0, 14, (3, 2)).astype('float64')
     refT, refP, ok = frac.templates(Xb, vb, cl)
     if not ok or np.linalg.cond(refP) > 1e3:
